@@ -272,18 +272,123 @@ def build():  # noqa: F811
     def use_callee(m):
         world._use_callee_match = True
 
+    # element-wise left fold with context threading: after the first k matchers
+    #   fctx = the context (ctx updated with every sub-match's captures), fcaps = the captures collected, fok = all verdicts so far
+    mcaps_t = lambda mt, vt, ct: mcaps(MAT.wrap(mt), PV.wrap(vt), VARS.wrap(ct)).term
+    fctx = lib.fn("seq_fold_ctx", [SM, SPV, VARS], VARS)
+    fcaps = lib.fn("seq_fold_caps", [SM, SPV, VARS], VARS)
+    fok = lib.fn("seq_fold_ok", [SM, SPV, VARS], BOOL)
+    at = lambda vs, ms: vs[z3.Length(ms)]
+    fctx.rule("seq_fold_ctx-empty", 0, "empty")(lambda a, p: a[2])
+    fctx.rule("seq_fold_ctx-snoc", 0, "snoc")(lambda a, p: d["upd"](fctx.t(p[0], a[1], a[2]), mcaps_t(p[1], at(a[1], p[0]), fctx.t(p[0], a[1], a[2]))))
+    fcaps.rule("seq_fold_caps-empty", 0, "empty")(lambda a, p: EMPTY.term)
+    fcaps.rule("seq_fold_caps-snoc", 0, "snoc")(lambda a, p: d["upd"](fcaps.t(p[0], a[1], a[2]), mcaps_t(p[1], at(a[1], p[0]), fctx.t(p[0], a[1], a[2]))))
+    fok.rule("seq_fold_ok-empty", 0, "empty")(lambda a, p: z3.BoolVal(True))
+    fok.rule("seq_fold_ok-snoc", 0, "snoc")(lambda a, p: z3.And(fok.t(p[0], a[1], a[2]), mok(p[1], at(a[1], p[0]), fctx.t(p[0], a[1], a[2]))))
+    fok.rule("seq_fold_ok-prefix", 0, "concat", "lemma", raw=True)(lambda a, p: z3.Implies(fok.t(z3.Concat(p[0], p[1]), a[1], a[2]), fok.t(p[0], a[1], a[2])))
+    sf.update({"seq_fold_ctx": fctx, "seq_fold_caps": fcaps, "seq_fold_ok": fok})
+    LEN_OK = "((self.tail_matcher is None and len(value) == len(self.matchers)) or (self.tail_matcher is not None and len(value) >= len(self.matchers)))"
     for variant, vs in ((None, "Seq[PyVal]"), ("non-sequence", "PyVal")):
         A(Contract(f"{PM_}:SequenceMatcher._match", variant_of=variant, params={"self": "Matcher", "value": vs, "ctx": "Vars"}, returns="Tuple[bool,Vars]",
                    props=P, may_raise=["ASTPatternDefinitionError"], setup=use_callee,
                    locals={"local_ctx": "Vars", "ret_vars": "Vars"},
                    ensures=(["result[0] == False", "result[1] == EMPTY_VARS"] if variant else
-                            [f"implies({LEN_RULE}, result[0] == False and result[1] == EMPTY_VARS)",
-                             "implies(result[0], (self.tail_matcher is None and len(value) == len(self.matchers)) or (self.tail_matcher is not None and len(value) >= len(self.matchers)))",
-                             "implies(not result[0], result[1] == EMPTY_VARS)"]),
-                   loops={1: Loop(inv=["True"])},
+                            [f"result[0] == ({LEN_OK} and seq_fold_ok(self.matchers, value, ctx))",
+                             "implies(not result[0], result[1] == EMPTY_VARS)",
+                             "implies(result[0] and self.tail_matcher is None, result[1] == seq_fold_caps(self.matchers, value, ctx))",
+                             "implies(result[0] and self.tail_matcher is not None, result[1] == upd(seq_fold_caps(self.matchers, value, ctx), "
+                             "mcaps(self.tail_matcher, tuple_value(value[len(self.matchers):]), seq_fold_ctx(self.matchers, value, ctx))))"]),
+                   loops={1: Loop(inv=["len(done1) == len(done1_2)", "seq_fold_ok(done1, value, ctx)", "local_ctx == seq_fold_ctx(done1, value, ctx)",
+                                       "ret_vars == seq_fold_caps(done1, value, ctx)"])},
                    note=("a value that is not a Sequence never matches" if variant else
-                         "length rule of the statement: equal length without a trailing '*', at least as many elements with it; failure returns no captures. "
-                         "The element-wise fold of verdicts and captures is covered by the bounded run only.")))
+                         "equal length without a trailing '*', at least as many elements with it; the listed matchers are applied element-wise, left to right, each seeing the "
+                         "captures of the earlier ones; on success the captures are those of the elements in order, followed by the tail matcher's capture of the tuple of "
+                         "remaining elements; failure returns no captures")))
+    # ---- NodeMatcher._match: class test, then the listed fields in order ----------------------------------------
+    from pyvc.values import rec_sort as _rs
+    CI = _rs("ContentItem", [("fname", STR), ("sub", MAT)], tuple_like=True)
+    SCI = seq_of(CI)
+    m_content = z3.Function("m_content", MAT.z3(), SCI.z3())
+    inst_any = z3.Function("isinstance_of_any", PV.z3(), MAT.z3(), z3.BoolSort())   # isinstance(value, self.types)
+    has_attr = z3.Function("has_attr", PV.z3(), z3.StringSort(), z3.BoolSort())
+    attr_of = z3.Function("attr_of", PV.z3(), z3.StringSort(), PV.z3())
+    nctx = lib.fn("node_fold_ctx", [SCI, PV, VARS], VARS)
+    ncaps = lib.fn("node_fold_caps", [SCI, PV, VARS], VARS)
+    nok = lib.fn("node_fold_ok", [SCI, PV, VARS], BOOL)
+    fn_, sub_ = (lambda it: CI.get(CI.wrap(it).term, "fname").term), (lambda it: CI.get(CI.wrap(it).term, "sub").term)
+    nctx.rule("node_fold_ctx-empty", 0, "empty")(lambda a, p: a[2])
+    nctx.rule("node_fold_ctx-snoc", 0, "snoc")(lambda a, p: d["upd"](nctx.t(p[0], a[1], a[2]), mcaps_t(sub_(p[1]), attr_of(a[1], fn_(p[1])), nctx.t(p[0], a[1], a[2]))))
+    ncaps.rule("node_fold_caps-empty", 0, "empty")(lambda a, p: EMPTY.term)
+    ncaps.rule("node_fold_caps-snoc", 0, "snoc")(lambda a, p: d["upd"](ncaps.t(p[0], a[1], a[2]), mcaps_t(sub_(p[1]), attr_of(a[1], fn_(p[1])), nctx.t(p[0], a[1], a[2]))))
+    nok.rule("node_fold_ok-empty", 0, "empty")(lambda a, p: z3.BoolVal(True))
+    nok.rule("node_fold_ok-snoc", 0, "snoc")(lambda a, p: z3.And(nok.t(p[0], a[1], a[2]), has_attr(a[1], fn_(p[1])), mok(sub_(p[1]), attr_of(a[1], fn_(p[1])), nctx.t(p[0], a[1], a[2]))))
+    nok.rule("node_fold_ok-prefix", 0, "concat", "lemma", raw=True)(lambda a, p: z3.Implies(nok.t(z3.Concat(p[0], p[1]), a[1], a[2]), nok.t(p[0], a[1], a[2])))
+    sf.update({"node_fold_ctx": nctx, "node_fold_caps": ncaps, "node_fold_ok": nok,
+               "m_content": lambda m_: SCI.wrap(m_content(MAT.coerce(m_).term)), "inst_any": lambda v, m_: VBool(inst_any(PV.coerce(v).term, MAT.coerce(m_).term))})
+
+    def attr_n(m, obj, name):
+        if isinstance(obj, VU) and obj.sort == MAT and name == "content":
+            return SCI.wrap(m_content(obj.term))
+        if isinstance(obj, VU) and obj.sort == MAT and name == "types":
+            return VPy(("types_of", obj))
+        return None
+
+    def call_n(m, func, args, kwargs, node):
+        if isinstance(func, VPy) and func.obj == ("builtin", "hasattr") and isinstance(args[0], VU) and args[0].sort == PV:
+            return VBool(has_attr(args[0].term, STR.coerce(args[1]).term))
+        if isinstance(func, VPy) and func.obj == ("builtin", "getattr") and len(args) == 2 and isinstance(args[0], VU) and args[0].sort == PV:
+            from pyvc.symex import RaiseSig
+            if not m.ctx.branch(has_attr(args[0].term, STR.coerce(args[1]).term)):
+                raise RaiseSig(VExc("AttributeError"))
+            return PV.wrap(attr_of(args[0].term, STR.coerce(args[1]).term))
+        return NotImplemented
+
+    def isinst_n(m, v, cls):
+        if isinstance(v, VU) and v.sort == PV and isinstance(cls, VPy) and isinstance(cls.obj, tuple) and cls.obj[0] == "types_of":
+            return inst_any(v.term, cls.obj[1].term)
+        return None
+
+    world.attr_hooks.insert(0, attr_n)
+    world.call_hooks.insert(0, call_n)
+    world.isinstance_hooks.insert(0, isinst_n)
+    A(Contract(f"{PM_}:NodeMatcher._match", params={"self": "Matcher", "value": "PyVal", "ctx": "Vars"}, returns="Tuple[bool,Vars]",
+               props=P, may_raise=["ASTPatternDefinitionError"], setup=use_callee,
+               locals={"local_ctx": "Vars", "ret_vars": "Vars"},
+               ensures=["result[0] == (inst_any(value, self) and node_fold_ok(m_content(self), value, ctx))",
+                        "implies(not result[0], result[1] == EMPTY_VARS)",
+                        "implies(result[0], result[1] == node_fold_caps(m_content(self), value, ctx))"],
+               loops={1: Loop(inv=["node_fold_ok(done1, value, ctx)", "local_ctx == node_fold_ctx(done1, value, ctx)", "ret_vars == node_fold_caps(done1, value, ctx)"])},
+               note="an instance of one of the listed classes, and every listed field exists and its matcher accepts the field's value, checked in the listed order with the "
+                    "captures of earlier fields visible to later ones; captures are collected in that order; failure returns no captures"))
+    # prefix lemmas: a failed prefix fails the whole fold (induction on the appended part)
+    ms_a, ms_b = z3.Const("ms_a", SM.z3()), z3.Const("ms_b", SM.z3())
+    m_y = z3.Const("m_y", MAT.z3())
+    vs_ = z3.Const("vs_l", SPV.z3())
+    c_ = z3.Const("c_l", VARS.z3())
+    from pyvc.core import mk_snoc
+
+    def sp_base(bank):
+        return [], z3.Implies(fok.t(z3.Concat(ms_a, z3.Empty(SM.z3())), vs_, c_), fok.t(ms_a, vs_, c_))
+
+    def sp_step(bank):
+        ih = z3.Implies(fok.t(z3.Concat(ms_a, ms_b), vs_, c_), fok.t(ms_a, vs_, c_))
+        whole = z3.Concat(ms_a, mk_snoc(ms_b, m_y))
+        bank.add(whole, ("snoc", z3.Concat(ms_a, ms_b), m_y))
+        return [ih], z3.Implies(fok.t(whole, vs_, c_), fok.t(ms_a, vs_, c_))
+    lem = lem + [Lemma("seq_fold_ok-prefix", [("base", sp_base), ("step", sp_step)], P)]
+    ci_a, ci_b = z3.Const("ci_a", SCI.z3()), z3.Const("ci_b", SCI.z3())
+    ci_y = z3.Const("ci_y", CI.z3())
+    v_l = z3.Const("v_l", PV.z3())
+
+    def np_base(bank):
+        return [], z3.Implies(nok.t(z3.Concat(ci_a, z3.Empty(SCI.z3())), v_l, c_), nok.t(ci_a, v_l, c_))
+
+    def np_step(bank):
+        ih = z3.Implies(nok.t(z3.Concat(ci_a, ci_b), v_l, c_), nok.t(ci_a, v_l, c_))
+        whole = z3.Concat(ci_a, mk_snoc(ci_b, ci_y))
+        bank.add(whole, ("snoc", z3.Concat(ci_a, ci_b), ci_y))
+        return [ih], z3.Implies(nok.t(whole, v_l, c_), nok.t(ci_a, v_l, c_))
+    lem = lem + [Lemma("node_fold_ok-prefix", [("base", np_base), ("step", np_step)], P)]
     from pyvc.values import rec_sort
     T2 = rec_sort("Tuple2", [("rule", STR), ("caps", VARS)], tuple_like=True)
     # ---- MultiPatternMatcher.match: first matching rule in the given order -------------------------------------
